@@ -163,16 +163,16 @@ pub fn into_ipc_error(e: UnixError) -> (r: IpcError) ensures r == conv_ipc(e), (
 #[verifier::external_body]
 pub fn into_try_recv_error(e: UnixError) -> (r: TryRecvError)
     ensures r == conv_try(e), (r matches TryRecvError::IpcError(IpcError::Disconnected)) <==> (e is ChannelClosed) { unimplemented!() }
-pub struct OsRecv { pub ok: bool, pub data: Seq<u8> }
+pub struct OsRecv { pub ok: bool, pub data: Seq<u8>, pub err: Option<UnixError> }
 impl OsIpcReceiver {
     // platform receives (unit U3): the stub records what the transport handed up
     #[verifier::external_body]
     pub fn recv(&self, Tracked(g): Tracked<&mut Seq<OsRecv>>) -> (r: Result<(Vec<u8>, Vec<OsOpaqueIpcChannel>, Vec<OsIpcSharedMemory>), UnixError>)
-        ensures *final(g) == old(g).push(OsRecv { ok: r is Ok, data: if r is Ok { r->Ok_0.0@ } else { Seq::empty() } })
+        ensures *final(g) == old(g).push(OsRecv { ok: r is Ok, data: if r is Ok { r->Ok_0.0@ } else { Seq::empty() }, err: if r is Err { Some(r->Err_0) } else { None } })
     { unimplemented!() }
     #[verifier::external_body]
     pub fn try_recv(&self, Tracked(g): Tracked<&mut Seq<OsRecv>>) -> (r: Result<(Vec<u8>, Vec<OsOpaqueIpcChannel>, Vec<OsIpcSharedMemory>), UnixError>)
-        ensures *final(g) == old(g).push(OsRecv { ok: r is Ok, data: if r is Ok { r->Ok_0.0@ } else { Seq::empty() } })
+        ensures *final(g) == old(g).push(OsRecv { ok: r is Ok, data: if r is Ok { r->Ok_0.0@ } else { Seq::empty() }, err: if r is Err { Some(r->Err_0) } else { None } })
     { unimplemented!() }
 }
 
